@@ -2,6 +2,7 @@ package main
 
 import (
 	"fmt"
+	"time"
 	"go/token"
 	"go/types"
 	"sort"
@@ -118,6 +119,9 @@ type Engine struct {
 	modLocs   []Loc
 	exit      *State
 	exitVals  []Val
+	vcBytes   int
+	deadline  time.Time
+	steps     int
 }
 
 func newEngine(w *World, fn *ssa.Function, c *Contract, mode Mode) *Engine {
@@ -173,9 +177,18 @@ func (e *Engine) freshVal(t types.Type, hint string) Val {
 	})
 }
 
+const maxVCBytes = 24 << 20
+
 func (e *Engine) assume(t Term) {
 	if t.S == "true" {
 		return
+	}
+	e.vcBytes += len(t.S)
+	if e.vcBytes > maxVCBytes {
+		unsupp("verification condition larger than %d MB (term blow-up); function left undecided", maxVCBytes>>20)
+	}
+	if !e.deadline.IsZero() && time.Now().After(e.deadline) {
+		unsupp("VC generation exceeded its time budget; function left undecided")
 	}
 	e.assumps = append(e.assumps, Assump{T: t})
 }
@@ -233,6 +246,10 @@ func (e *Engine) oblige(kind, name string, guard, goal Term, pos token.Pos) *Obl
 		o.Pos = fmt.Sprintf("%s:%d", strings.TrimPrefix(p.Filename, "/repo/"), p.Line)
 	}
 	o.Inputs = e.inputs
+	e.vcBytes += len(guard.S) + len(goal.S)
+	if e.vcBytes > maxVCBytes {
+		unsupp("verification condition larger than %d MB (term blow-up); function left undecided", maxVCBytes>>20)
+	}
 	e.obls = append(e.obls, o)
 	return o
 }
